@@ -5,6 +5,7 @@
 import BezierVerif.Props.C05M
 import BezierVerif.Props.C05
 import BezierVerif.Props.C11
+import BezierVerif.Model.Clip
 import Mathlib.Tactic.Linarith
 import Mathlib.Tactic.FieldSimp
 import Mathlib.Tactic.Ring
@@ -210,5 +211,361 @@ theorem ray_hit (ax ay bx by' lx px py : K) (hc : Clear ax ay bx by' lx px py) :
           ((1 : K) / 5000000 ≤ T2 ax ay bx by' lx px py ∧ T2 ax ay bx by' lx px py ≤ (5000001 : K) / 5000000)) :=
           fun h => hh ((hwin True Iff.rfl).mp h)
         split_ifs <;> rfl
+
+/-! ### closed chains cross a level an even number of times -/
+
+section parity
+
+/-- number of adjacent unequal pairs -/
+def changes : List Bool → Nat
+  | a :: b :: rest => (a != b).toNat + changes (b :: rest)
+  | _ => 0
+
+def lastOr (d : Bool) : List Bool → Bool
+  | [] => d
+  | a :: l => lastOr a l
+
+theorem changes_parity (a : Bool) (l : List Bool) :
+    changes (a :: l) % 2 = (a != lastOr a l).toNat := by
+  induction l generalizing a with
+  | nil => simp [changes, lastOr]
+  | cons b l ih =>
+    simp only [changes, lastOr]
+    have hb := ih b
+    generalize changes (b :: l) = n at hb ⊢
+    generalize lastOr b l = z at hb ⊢
+    cases a <;> cases b <;> cases z <;> simp at hb ⊢ <;> omega
+
+theorem lastOr_append_singleton (d a : Bool) (l : List Bool) : lastOr d (l ++ [a]) = a := by
+  induction l generalizing d with
+  | nil => simp [lastOr]
+  | cons b l ih => simp only [List.cons_append, lastOr]; exact ih b
+
+/-- a chain that returns to where it started changes sides an even number of times -/
+theorem closed_changes_even (a : Bool) (l : List Bool) : changes (a :: l ++ [a]) % 2 = 0 := by
+  have := changes_parity a (l ++ [a])
+  rw [lastOr_append_singleton] at this
+  simpa using this
+
+/-- `changes` of the side list = number of edges whose ends lie on different sides -/
+theorem changes_map_edges {V : Type} (f : V → Bool) (l : List V) :
+    changes (l.map f) = (Clip.edges l).countP (fun e => f e.1 != f e.2) := by
+  induction l with
+  | nil => simp [changes, Clip.edges]
+  | cons a l ih =>
+    cases l with
+    | nil => simp [changes, Clip.edges]
+    | cons b l =>
+      simp only [List.map_cons, changes, Clip.edges, List.countP_cons]
+      simp only [List.map_cons] at ih
+      rw [ih]
+      cases f a <;> cases f b <;> simp <;> omega
+
+end parity
+
+/-! ### the dict when no two crossings coincide -/
+
+section dict
+open Winding
+variable [DecidableEq K]
+
+theorem foldl_insert_fresh (hs d : List (Hit K)) (h : ((d ++ hs).map (·.pt)).Nodup) :
+    hs.foldl insertHit d = d ++ hs := by
+  induction hs generalizing d with
+  | nil => simp
+  | cons x hs ih =>
+    simp only [List.foldl_cons]
+    have hfresh : ∀ e ∈ d, e.pt ≠ x.pt := by
+      intro e he heq
+      rw [List.map_append, List.map_cons] at h
+      have := List.nodup_append.mp h
+      exact this.2.2 (e.pt) (List.mem_map.mpr ⟨e, he, rfl⟩) (x.pt) (List.mem_cons_self) heq
+    rw [C11.insertHit_fresh d x hfresh, ih (d ++ [x]) (by simpa using h)]
+    simp
+
+/-- all hits in insertion order -/
+def flatHits : Nat → List (Seg K × List (K × K)) → List (Hit K)
+  | _, [] => []
+  | i, (s, pairs) :: rest => hitsOf i s pairs ++ flatHits (i + 1) rest
+
+/-- **no coincident crossings ⇒ the dict holds every crossing once** -/
+theorem collect_flat (i : Nat) (rows : List (Seg K × List (K × K))) (d : List (Hit K))
+    (h : ((d ++ flatHits i rows).map (·.pt)).Nodup) : collect i rows d = d ++ flatHits i rows := by
+  induction rows generalizing i d with
+  | nil => simp [collect, flatHits]
+  | cons r rows ih =>
+    obtain ⟨s, pairs⟩ := r
+    simp only [collect, flatHits] at h ⊢
+    have h1 : (((d ++ hitsOf i s pairs)).map (·.pt)).Nodup := by
+      rw [← List.append_assoc, List.map_append] at h
+      exact (List.nodup_append.mp h).1
+    rw [foldl_insert_fresh _ _ h1, ih (i + 1) (d ++ hitsOf i s pairs) (by rw [List.append_assoc]; exact h), List.append_assoc]
+
+theorem flatHits_length (i : Nat) (rows : List (Seg K × List (K × K))) :
+    (flatHits i rows).length = (rows.map fun r => r.2.length).sum := by
+  induction rows generalizing i with
+  | nil => simp [flatHits]
+  | cons r rows ih =>
+    obtain ⟨s, pairs⟩ := r
+    simp only [flatHits, List.length_append, List.map_cons, List.sum_cons, ih (i + 1)]
+    simp [hitsOf]
+
+end dict
+
+/-! ### even-odd for closed chains of lines -/
+
+section polygon
+open Winding
+variable [DecidableEq K]
+
+abbrev Edge (K : Type) := Pt K × Pt K
+
+abbrev eHit (x0 px py : K) (e : Edge K) : Prop := hit e.1.x e.1.y e.2.x e.2.y x0 px py
+def eStraddle (py : K) (e : Edge K) : Prop := Straddle e.1.y e.2.y py
+instance (py : K) (e : Edge K) : Decidable (eStraddle py e) := by unfold eStraddle Straddle; infer_instance
+def eX (py : K) (e : Edge K) : K := xstar e.1.x e.1.y e.2.x e.2.y py
+def eClear (x0 px py : K) (e : Edge K) : Prop := Clear e.1.x e.1.y e.2.x e.2.y x0 px py
+
+/-- the rows the winding code's first loop sees for one ray: every edge with its crossing pairs -/
+def rows (sqrt : K → K) (x0 px py : K) (es : List (Edge K)) : List (Seg K × List (K × K)) :=
+  es.map fun e => (Seg.line e.1 e.2, segHits sqrt (Seg.line e.1 e.2) x0 px py (Seg.line e.1 e.2) [])
+
+theorem segHits_line (sqrt : K → K) (x0 px py : K) (e : Edge K) (hc : eClear x0 px py e) (al : Seg K) (cl : List K) :
+    segHits sqrt (Seg.line e.1 e.2) x0 px py al cl =
+      if eHit x0 px py e then [(T1 e.1.y e.2.y py, T2 e.1.x e.1.y e.2.x e.2.y x0 px py)] else [] := by
+  unfold segHits
+  simp only
+  rw [ray_hit _ _ _ _ _ _ _ hc]
+  by_cases hh : hit e.1.x e.1.y e.2.x e.2.y x0 px py
+  · simp only [eHit, hh, if_true]
+  · simp only [eHit, hh, if_false]
+
+theorem rows_sum (sqrt : K → K) (x0 px py : K) (es : List (Edge K)) (hc : ∀ e ∈ es, eClear x0 px py e) :
+    ((rows sqrt x0 px py es).map fun r => r.2.length).sum = es.countP (fun e => decide (eHit x0 px py e)) := by
+  induction es with
+  | nil => simp [rows]
+  | cons e es ih =>
+    have he := hc e List.mem_cons_self
+    have ih' := ih (fun e' h' => hc e' (List.mem_cons_of_mem _ h'))
+    have hr : rows sqrt x0 px py (e :: es) =
+        (Seg.line e.1 e.2, segHits sqrt (Seg.line e.1 e.2) x0 px py (Seg.line e.1 e.2) []) :: rows sqrt x0 px py es := rfl
+    rw [hr, List.map_cons, List.sum_cons, ih', List.countP_cons, segHits_line sqrt x0 px py e he]
+    by_cases hh : eHit x0 px py e
+    · simp only [hh, if_true, List.length_singleton, decide_true]; omega
+    · simp only [hh, if_false, List.length_nil, decide_false]; simp
+
+theorem zip_map_self {α β : Type} (l : List α) (f : α → β) : l.zip (l.map f) = l.map fun x => (x, f x) := by
+  induction l with
+  | nil => rfl
+  | cons a l ih => simp [ih]
+
+/-- left ray: with the ray's far end left of the crossing, an edge is hit iff it straddles and the crossing is left of px -/
+theorem hit_left (lx px py : K) (e : Edge K) (hc : eClear lx px py e) (hb : eStraddle py e → lx < eX py e) :
+    eHit lx px py e ↔ (eStraddle py e ∧ eX py e < px) := by
+  unfold eHit hit eStraddle eX at *
+  have hne : px - lx ≠ 0 := sub_ne_zero.mpr (fun h => hc.ray (by rw [h]; exact isclose_self _ _))
+  constructor
+  · rintro ⟨hs, h0, h1⟩
+    refine ⟨hs, ?_⟩
+    have hl := hb hs
+    unfold T2 at h0 h1
+    rcases lt_or_gt_of_ne hne with hneg | hpos
+    · exfalso
+      have : (xstar e.1.x e.1.y e.2.x e.2.y py - lx) / (px - lx) < 0 := div_neg_of_pos_of_neg (by linarith) hneg
+      linarith
+    · rw [div_lt_one hpos] at h1; linarith
+  · rintro ⟨hs, hx⟩
+    have hl := hb hs
+    refine ⟨hs, ?_, ?_⟩ <;> unfold T2
+    · exact div_pos (by linarith) (by linarith)
+    · rw [div_lt_one (by linarith)]; linarith
+
+/-- right ray: an edge is hit iff it straddles and the crossing is right of px -/
+theorem hit_right (rx px py : K) (e : Edge K) (hc : eClear rx px py e) (hb : eStraddle py e → eX py e < rx) :
+    eHit rx px py e ↔ (eStraddle py e ∧ px < eX py e) := by
+  unfold eHit hit eStraddle eX at *
+  have hne : px - rx ≠ 0 := sub_ne_zero.mpr (fun h => hc.ray (by rw [h]; exact isclose_self _ _))
+  constructor
+  · rintro ⟨hs, h0, h1⟩
+    refine ⟨hs, ?_⟩
+    have hl := hb hs
+    unfold T2 at h0 h1
+    rcases lt_or_gt_of_ne hne with hneg | hpos
+    · rw [div_lt_one_of_neg hneg] at h1; linarith
+    · exfalso
+      have : (xstar e.1.x e.1.y e.2.x e.2.y py - rx) / (px - rx) < 0 := div_neg_of_neg_of_pos (by linarith) hpos
+      linarith
+  · rintro ⟨hs, hx⟩
+    have hl := hb hs
+    refine ⟨hs, ?_, ?_⟩ <;> unfold T2
+    · exact div_pos_of_neg_of_neg (by linarith) (by linarith)
+    · rw [div_lt_one_of_neg (by linarith)]; linarith
+
+/-- a straddling edge in clear position does not cross exactly at px -/
+theorem cross_ne_px (lx px py : K) (e : Edge K) (hc : eClear lx px py e) (hs : eStraddle py e) : eX py e ≠ px := by
+  intro h
+  unfold eClear eStraddle eX at *
+  have hflat : e.2.y ≠ e.1.y := by
+    intro hh; unfold Straddle at hs; rw [hh] at hs; rcases hs with h | h <;> linarith [h.1, h.2]
+  have hb := (hc.band2 hflat).2
+  have hne : px - lx ≠ 0 := sub_ne_zero.mpr (fun h => hc.ray (by rw [h]; exact isclose_self _ _))
+  apply hb
+  have : T2 e.1.x e.1.y e.2.x e.2.y lx px py = 1 := by unfold T2; rw [h]; exact div_self hne
+  rw [this]; constructor <;> norm_num
+
+theorem straddle_iff_sides (py : K) (e : Edge K) (h1 : e.1.y ≠ py) (h2 : e.2.y ≠ py) :
+    eStraddle py e ↔ (decide (e.1.y < py) != decide (e.2.y < py)) = true := by
+  unfold eStraddle Straddle
+  rcases lt_or_gt_of_ne h1 with a | a <;> rcases lt_or_gt_of_ne h2 with b | b
+  · have l : ¬((e.1.y < py ∧ py < e.2.y) ∨ (e.2.y < py ∧ py < e.1.y)) := by rintro (h | h) <;> linarith [h.1, h.2]
+    simp only [l, false_iff]; simp [a, b]
+  · have l : (e.1.y < py ∧ py < e.2.y) ∨ (e.2.y < py ∧ py < e.1.y) := Or.inl ⟨a, b⟩
+    have nb : ¬ e.2.y < py := not_lt.mpr (le_of_lt b)
+    simp only [l, true_iff]; simp [a, nb]
+  · have l : (e.1.y < py ∧ py < e.2.y) ∨ (e.2.y < py ∧ py < e.1.y) := Or.inr ⟨b, a⟩
+    have na : ¬ e.1.y < py := not_lt.mpr (le_of_lt a)
+    simp only [l, true_iff]; simp [na, b]
+  · have l : ¬((e.1.y < py ∧ py < e.2.y) ∨ (e.2.y < py ∧ py < e.1.y)) := by rintro (h | h) <;> linarith [h.1, h.2]
+    have na : ¬ e.1.y < py := not_lt.mpr (le_of_lt a)
+    have nb : ¬ e.2.y < py := not_lt.mpr (le_of_lt b)
+    simp only [l, false_iff]; simp [na, nb]
+
+/-- **a closed chain crosses a level an even number of times** (levels of all vertices different from py) -/
+theorem straddle_even (py : K) (a : Pt K) (rest : List (Pt K)) (hl : ∀ v ∈ a :: rest, v.y ≠ py) :
+    ((Clip.wrapEdges (a :: rest)).countP (fun e => decide (eStraddle py e))) % 2 = 0 := by
+  have h := closed_changes_even (decide (a.y < py)) (rest.map fun v => decide (v.y < py))
+  have hm : (decide (a.y < py) :: (rest.map fun v => decide (v.y < py)) ++ [decide (a.y < py)]) =
+      (a :: rest ++ [a]).map fun v => decide (v.y < py) := by simp
+  rw [hm, changes_map_edges] at h
+  unfold Clip.wrapEdges
+  rw [← h]
+  congr 1
+  apply List.countP_congr
+  intro e he
+  have hmem : ∀ e ∈ Clip.edges (a :: rest ++ [a]), e.1 ∈ a :: rest ∧ e.2 ∈ a :: rest := by
+    intro e he
+    have : ∀ (l : List (Pt K)) (e : Edge K), e ∈ Clip.edges l → e.1 ∈ l ∧ e.2 ∈ l := by
+      intro l
+      induction l with
+      | nil => intro e he; simp [Clip.edges] at he
+      | cons x l ih =>
+        cases l with
+        | nil => intro e he; simp [Clip.edges] at he
+        | cons y l =>
+          intro e he
+          simp only [Clip.edges, List.mem_cons] at he
+          rcases he with rfl | he
+          · simp
+          · have := ih e he
+            exact ⟨List.mem_cons_of_mem _ this.1, List.mem_cons_of_mem _ this.2⟩
+    have h' := this _ e he
+    constructor
+    · have := h'.1; simp only [List.cons_append, List.mem_cons, List.mem_append, List.mem_singleton] at this ⊢; tauto
+    · have := h'.2; simp only [List.cons_append, List.mem_cons, List.mem_append, List.mem_singleton] at this ⊢; tauto
+  have hm := hmem e he
+  rw [decide_eq_true_iff, straddle_iff_sides py e (hl _ hm.1) (hl _ hm.2)]
+
+end polygon
+
+section evenodd
+open Winding
+variable [DecidableEq K]
+
+/-- the winding code's inputs for a closed chain of lines through the vertices `vs` -/
+def polySegs (vs : List (Pt K)) : List (Seg K) := (Clip.wrapEdges vs).map fun e => Seg.line e.1 e.2
+def rayHits (sqrt : K → K) (vs : List (Pt K)) (x0 px py : K) : List (List (K × K)) :=
+  (polySegs vs).map fun s => segHits sqrt s x0 px py s []
+
+theorem zip_rows (sqrt : K → K) (vs : List (Pt K)) (x0 px py : K) :
+    (polySegs vs).zip (rayHits sqrt vs x0 px py) = rows sqrt x0 px py (Clip.wrapEdges vs) := by
+  unfold rayHits polySegs rows
+  rw [zip_map_self, List.map_map]
+  rfl
+
+/-- **even-odd for closed chains of lines.**  Vertices `a :: rest` (the closing edge included), query point (px, py),
+    ray ends lx, rx (the padded bounding box in the code).  If every edge is in clear position with respect to both rays
+    (in particular py differs from every vertex level), every crossing lies strictly between lx and rx, and no two crossings
+    of one ray coincide (else K6), then `pointIsInside` answers true exactly when the number of edges that straddle the level
+    and cross it to the left of px is odd — the even-odd rule. -/
+theorem polygon_even_odd (sqrt : K → K) (a : Pt K) (rest : List (Pt K)) (px py lx rx : K)
+    (hcL : ∀ e ∈ Clip.wrapEdges (a :: rest), eClear lx px py e)
+    (hcR : ∀ e ∈ Clip.wrapEdges (a :: rest), eClear rx px py e)
+    (hlev : ∀ v ∈ a :: rest, v.y ≠ py)
+    (hbox : ∀ e ∈ Clip.wrapEdges (a :: rest), eStraddle py e → lx < eX py e ∧ eX py e < rx)
+    (hdL : ((flatHits 0 (rows sqrt lx px py (Clip.wrapEdges (a :: rest)))).map (·.pt)).Nodup)
+    (hdR : ((flatHits 0 (rows sqrt rx px py (Clip.wrapEdges (a :: rest)))).map (·.pt)).Nodup) :
+    inside own (polySegs (a :: rest)) (rayHits sqrt (a :: rest) lx px py) (rayHits sqrt (a :: rest) rx px py) = true ↔
+      ((Clip.wrapEdges (a :: rest)).countP (fun e => decide (eStraddle py e ∧ eX py e < px))) % 2 = 1 := by
+  set es := Clip.wrapEdges (a :: rest) with hes
+  -- the two dicts hold one entry per hit edge
+  have lenL : (collect 0 ((polySegs (a :: rest)).zip (rayHits sqrt (a :: rest) lx px py)) []).length =
+      es.countP (fun e => decide (eHit lx px py e)) := by
+    rw [zip_rows, collect_flat 0 _ [] (by simpa using hdL)]
+    simp only [List.nil_append]
+    rw [flatHits_length, rows_sum sqrt lx px py es hcL]
+  have lenR : (collect 0 ((polySegs (a :: rest)).zip (rayHits sqrt (a :: rest) rx px py)) []).length =
+      es.countP (fun e => decide (eHit rx px py e)) := by
+    rw [zip_rows, collect_flat 0 _ [] (by simpa using hdR)]
+    simp only [List.nil_append]
+    rw [flatHits_length, rows_sum sqrt rx px py es hcR]
+  -- left hits are the straddling edges crossing left of px, right hits those crossing right of px
+  have cL : es.countP (fun e => decide (eHit lx px py e)) = es.countP (fun e => decide (eStraddle py e ∧ eX py e < px)) := by
+    apply List.countP_congr
+    intro e he
+    rw [decide_eq_true_iff, decide_eq_true_iff]
+    exact hit_left lx px py e (hcL e he) (fun hs => (hbox e he hs).1)
+  have cR : es.countP (fun e => decide (eHit rx px py e)) = es.countP (fun e => decide (eStraddle py e ∧ px < eX py e)) := by
+    apply List.countP_congr
+    intro e he
+    rw [decide_eq_true_iff, decide_eq_true_iff]
+    exact hit_right rx px py e (hcR e he) (fun hs => (hbox e he hs).2)
+  -- every straddling edge is counted on exactly one side
+  have split : es.countP (fun e => decide (eStraddle py e ∧ eX py e < px)) + es.countP (fun e => decide (eStraddle py e ∧ px < eX py e)) =
+      es.countP (fun e => decide (eStraddle py e)) := by
+    have : ∀ (l : List (Edge K)), (∀ e ∈ l, e ∈ es) →
+        l.countP (fun e => decide (eStraddle py e ∧ eX py e < px)) + l.countP (fun e => decide (eStraddle py e ∧ px < eX py e)) =
+        l.countP (fun e => decide (eStraddle py e)) := by
+      intro l
+      induction l with
+      | nil => intro _; simp
+      | cons e l ih =>
+        intro hl
+        have ih' := ih (fun e' h' => hl e' (List.mem_cons_of_mem _ h'))
+        have he := hl e List.mem_cons_self
+        by_cases hs : eStraddle py e
+        · have hne := cross_ne_px lx px py e (hcL e he) hs
+          have e3 : decide (eStraddle py e) = true := decide_eq_true hs
+          rcases lt_or_gt_of_ne hne with h | h
+          · have e1 : decide (eStraddle py e ∧ eX py e < px) = true := decide_eq_true ⟨hs, h⟩
+            have e2 : decide (eStraddle py e ∧ px < eX py e) = false := decide_eq_false (fun hh => absurd hh.2 (not_lt.mpr (le_of_lt h)))
+            simp only [List.countP_cons, e1, e2, e3, if_true, Bool.false_eq_true, if_false]
+            omega
+          · have e1 : decide (eStraddle py e ∧ eX py e < px) = false := decide_eq_false (fun hh => absurd hh.2 (not_lt.mpr (le_of_lt h)))
+            have e2 : decide (eStraddle py e ∧ px < eX py e) = true := decide_eq_true ⟨hs, h⟩
+            simp only [List.countP_cons, e1, e2, e3, if_true, Bool.false_eq_true, if_false]
+            omega
+        · have e3 : decide (eStraddle py e) = false := decide_eq_false hs
+          have e1 : decide (eStraddle py e ∧ eX py e < px) = false := decide_eq_false (fun hh => hs hh.1)
+          have e2 : decide (eStraddle py e ∧ px < eX py e) = false := decide_eq_false (fun hh => hs hh.1)
+          simp only [List.countP_cons, e1, e2, e3, Bool.false_eq_true, if_false]
+          omega
+    exact this es (fun e he => he)
+  have even := straddle_even py a rest hlev
+  rw [← hes] at even
+  -- same parity on both sides, so the parity lemma applies
+  have hpar : (collect 0 ((polySegs (a :: rest)).zip (rayHits sqrt (a :: rest) lx px py)) []).length % 2 =
+      (collect 0 ((polySegs (a :: rest)).zip (rayHits sqrt (a :: rest) rx px py)) []).length % 2 := by
+    rw [lenL, lenR, cL, cR]; omega
+  rw [C11.inside_iff_odd_left own _ _ _ hpar, lenL, cL]
+
+end evenodd
+
+/-! non-vacuity: edges of the 10×10 square against the rays of the query point (0, 1) are in clear position -/
+example : Clear (5 : ℚ) (-5) 5 5 (-15) 0 1 := by
+  constructor <;> (try simp only [isclose, T1, T2, xstar]) <;> norm_num [abs_le, le_max_iff]
+example : Clear (5 : ℚ) 5 (-5) 5 15 0 1 := by
+  constructor <;> (try simp only [isclose, T1, T2, xstar]) <;> norm_num [abs_le, le_max_iff]
+example : hit (5 : ℚ) (-5) 5 5 15 0 1 ∧ ¬ hit (5 : ℚ) (-5) 5 5 (-15) 0 1 := by
+  unfold hit Straddle T2 xstar T1; norm_num
 
 end C11B
